@@ -47,7 +47,7 @@ type Violation struct {
 
 // V builds a violation; in is marshalled to JSON and is what replay receives.
 func V(scenario, clause string, in interface{}, expected, observed string, features ...string) *Violation {
-	raw, err := json.Marshal(in)
+	raw, err := MarshalInput(in)
 	if err != nil {
 		panic(err)
 	}
